@@ -1,9 +1,9 @@
 #!/bin/bash
-# tools/import_seeded.sh c05 C05   -> copies /tmp/wt-c05-out/change-{1,2} to seeded/C05-{1,2}
+# tools/import_seeded.sh c05 C05   -> copies /tmp/wt-c05-out/change-* to the next free seeded/C05-<k>
 low=$1; pid=$2; cd "$(dirname "$0")/.."
-for k in 1 2 3; do
-  src=/tmp/wt-$low-out/change-$k
-  [ -d "$src" ] || continue
+for src in /tmp/wt-$low-out/change-*; do
+  [ -f "$src/patch.diff" ] || continue
+  k=1; while [ -d seeded/$pid-$k ]; do k=$((k+1)); done
   dst=seeded/$pid-$k; mkdir -p $dst
   cp $src/patch.diff $src/demo.py $dst/ ; cp $src/note.md $dst/ 2>/dev/null
   /venv/bin/python - "$dst" "$pid" <<'PY'
@@ -13,4 +13,5 @@ note = open(os.path.join(dst, "note.md")).read() if os.path.exists(os.path.join(
 json.dump({"property": pid, "source": "independent sub-agent given only the property text and a scratch worktree",
            "needs_to_manifest": note.strip()[:1500]}, open(os.path.join(dst, "meta.json"), "w"), indent=1)
 PY
+  echo $dst
 done
